@@ -67,7 +67,18 @@ namespace riddle
             case INT_ID:
             case REAL_ID:
             case TP_ID:
-            case STRING_ID:
+            case STRING_ID: // either a primitive type method or a statement..
+            {
+                size_t c_pos = pos;
+                tk = next();
+                bool is_method = match(ID_ID) && tk->sym == LPAREN_ID;
+                backtrack(c_pos);
+                if (is_method)
+                    ms.emplace_back(_method_declaration());
+                else
+                    stmnts.emplace_back(_statement());
+                break;
+            }
             case LBRACE_ID:
             case BANG_ID:
             case FACT_ID:
@@ -422,14 +433,36 @@ namespace riddle
         std::vector<const statement *> stmnts;
 
         if (!match(VOID_ID))
-        {
-            do
+            switch (tk->sym)
             {
-                if (!match(ID_ID))
-                    error("expected identifier..");
-                rt.emplace_back(*static_cast<id_token *>(tks[pos - 2]));
-            } while (match(DOT_ID));
-        }
+            case BOOL_ID:
+                rt.emplace_back(id_token(0, 0, 0, 0, BOOL_KEYWORD));
+                tk = next();
+                break;
+            case INT_ID:
+                rt.emplace_back(id_token(0, 0, 0, 0, INT_KEYWORD));
+                tk = next();
+                break;
+            case REAL_ID:
+                rt.emplace_back(id_token(0, 0, 0, 0, REAL_KEYWORD));
+                tk = next();
+                break;
+            case TP_ID:
+                rt.emplace_back(id_token(0, 0, 0, 0, TP_KEYWORD));
+                tk = next();
+                break;
+            case STRING_ID:
+                rt.emplace_back(id_token(0, 0, 0, 0, STRING_KEYWORD));
+                tk = next();
+                break;
+            default:
+                do
+                {
+                    if (!match(ID_ID))
+                        error("expected either 'void' or 'bool' or 'int' or 'real' or 'string' or an identifier..");
+                    rt.emplace_back(*static_cast<id_token *>(tks[pos - 2]));
+                } while (match(DOT_ID));
+            }
 
         if (!match(ID_ID))
             error("expected identifier..");
